@@ -881,8 +881,12 @@ class Evaluator:
     # ---------------------------------------------------------------- assignment
     def _assign(self, tgt, v: T, st: State, stmt, aug=False, loop_target=False):
         if isinstance(tgt, ast.Name):
+            shared = ()
+            if aug and v.op == "binop":
+                # other local names bound to the very object that `x op= e` may update in place
+                shared = tuple(sorted(n for n, t in st.loc.items() if n != tgt.id and t is v.args[1]))
             st.loc[tgt.id] = v
-            self._emit("store", stmt, st, tkind="name", name=tgt.id, value=v, target_node=tgt)
+            self._emit("store", stmt, st, tkind="name", name=tgt.id, value=v, target_node=tgt, shared=shared)
         elif isinstance(tgt, (ast.Tuple, ast.List)):
             items = v.args[0] if v.op in ("tuple", "list") and len(v.args[0]) == len(tgt.elts) else None
             for i, el in enumerate(tgt.elts):
